@@ -46,6 +46,8 @@ def run(ck):
     ck.assumptions += ['torch.linalg.qr / inv are accurate to 1e-4 (checked on every instance by converter_okb)',
                        'float32 decode compared with the exact model within 2e-5 * (1 + |input|_1 * |invA|_max)']
     ck.check_theorems()
+    from harness import convops
+    convops.check_translation(ck)
     rng = np.random.default_rng(ck.seed + 1313)
     Ks = range(2, 8) if ck.tier == 'quick' else range(2, 13)
     cases = []; meta = {}
